@@ -897,6 +897,92 @@ def gen_include_case(rng, max_depth=2):
     return origin, files, b"".join(explicit), inlined
 
 
+# ------------------------------------------------------------------ RFC 3597 spelling of known types
+
+
+def wire_name(labels):
+    """uncompressed wire form of an absolute label list (ends with b'')"""
+    return b"".join(bytes([len(l)]) + l for l in labels)
+
+
+# type code, mnemonic, layout: "n" name, "1"/"2"/"4" unsigned integers, "b" opaque tail (bytes, text spelling)
+GENERIC_TYPES = [
+    (2, b"NS", "n"), (5, b"CNAME", "n"), (12, b"PTR", "n"), (39, b"DNAME", "n"),
+    (15, b"MX", "2n"), (33, b"SRV", "222n"), (6, b"SOA", "nn44444"),
+    (17, b"RP", "nn"), (18, b"AFSDB", "2n"), (36, b"KX", "2n"), (21, b"RT", "2n"),
+    (46, b"RRSIG", "R"), (47, b"NSEC", "N"),
+]
+
+
+def gen_generic_record(rng, ty_entry, names):
+    """one record of a type with embedded names: (type code, mnemonic, [text fields], wire); a text field is
+    bytes (verbatim) or a label list (a name, absolute)"""
+    code, mn, layout = ty_entry
+    fields, wire = [], b""
+    if layout == "R":
+        signer = rng.choice(names)
+        fields = [b"A", b"8", b"2", b"300", b"20260101000000", b"20250101000000", b"4242", signer, b"AQID"]
+        wire = (b"\x00\x01\x08\x02" + (300).to_bytes(4, "big") + (1767225600).to_bytes(4, "big")
+                + (1735689600).to_bytes(4, "big") + (4242).to_bytes(2, "big") + wire_name(signer) + b"\x01\x02\x03")
+        return code, mn, fields, wire
+    if layout == "N":
+        nxt = rng.choice(names)
+        fields = [nxt, b"A", b"NSEC"]
+        wire = wire_name(nxt) + b"\x00\x06\x40\x00\x00\x00\x00\x01"
+        return code, mn, fields, wire
+    for ch in layout:
+        if ch == "n":
+            n = rng.choice(names)
+            fields.append(n)
+            wire += wire_name(n)
+        else:
+            w = int(ch)
+            v = rng.choice([0, 1, 10, 256 ** w - 1, rng.randrange(256 ** w)])
+            fields.append(b"%d" % v)
+            wire += v.to_bytes(w, "big")
+    return code, mn, fields, wire
+
+
+def gen_respell_generic(rng):
+    """one record of a known type with embedded names in four spellings (relative names, absolute names,
+    RFC 3597 `# len hex` with the backslash, and the same after `CLASS1 TYPEn`) under the zone origin, under a `$ORIGIN` below it, or in a file
+    included with an origin below it.  Returns (origin, head, [body per spelling], how, cur)"""
+    origin = rng.choice([[b"example", b""], [b"zone-1", b"test", b""], [b"x", b""]])
+    how = rng.choice(["zone", "origin", "origin", "include", "include"])
+    cur = origin if how == "zone" else [rng.choice([b"sub", b"s2", b"deep-1"])] + ([b"mid"] if rng.random() < 0.3 else []) + origin
+    names = [[b"target"] + cur, cur, [b"a", b"b"] + cur, [b"other"] + origin, origin,
+             [b"ext", b"example", b"net", b""], [b"Target"] + cur, [b"sub"] + cur]
+    ent = rng.choice(GENERIC_TYPES)
+    code, mn, fields, wire = gen_generic_record(rng, ent, names)
+    owner = [rng.choice([b"rec", b"www", b"r-1"])] + cur
+    ttl = rng.choice([b"300", b"60", b"3600"])
+
+    def rel_text(n):
+        if n == cur:
+            return b"@"
+        if len(n) > len(cur) and n[len(n) - len(cur):] == cur:
+            return name_text(n[:len(n) - len(cur)])
+        return name_text(n)
+
+    hexs = wire.hex().encode()
+    if rng.random() < 0.3 and len(hexs) > 8:
+        k = rng.randrange(2, len(hexs) - 2, 2)
+        hexs = hexs[:k] + b" " + hexs[k:]            # the hex may come in several tokens
+    gen_tail = b"\\# %d " % len(wire) + hexs
+    own_rel, own_abs = rel_text(owner), name_text(owner)
+    bodies = [
+        own_rel + b" " + ttl + b" IN " + mn + b" " + b" ".join(rel_text(f) if isinstance(f, list) else f for f in fields) + b"\n",
+        own_abs + b" " + ttl + b" IN " + mn + b" " + b" ".join(name_text(f) if isinstance(f, list) else f for f in fields) + b"\n",
+        own_rel + b" " + ttl + b" IN " + mn + b" " + gen_tail + b"\n",
+        own_abs + b" " + ttl + b" CLASS1 TYPE%d " % code + gen_tail + b"\n",
+    ]
+    head = (b"@ 300 IN SOA ns hostmaster 1 7200 900 1209600 300\n@ 300 IN NS ns\n" if code != 6 else b"@ 300 IN NS ns\n")
+    if code == 6:
+        # the SOA under test is the zone's SOA: its owner is the zone origin, spelled from the current origin
+        bodies = [b.replace(own_rel + b" ", name_text(origin) + b" ", 1).replace(own_abs + b" ", name_text(origin) + b" ", 1) for b in bodies]
+    return origin, head, bodies, how, cur
+
+
 def mutate_text(rng, text):
     b = bytearray(text)
     if not b:
@@ -1259,6 +1345,18 @@ def cases(ctx):
         if len(files) < 2:
             continue
         yield "respell-include-state", [28, origin, int(rng.random() < 0.5), files, explicit, inlined]
+    # RFC 3597 spelling of known types with embedded names, under the zone origin / a $ORIGIN below it / an
+    # $INCLUDE origin below it, relativized and absolute zones
+    for i in range(ctx.n(160, 2500)):
+        origin, head, bodies, how, cur = gen_respell_generic(rng)
+        rel = int(rng.random() < 0.7)
+        if how == "include":
+            texts = [head + b"$INCLUDE @@FILE1@@ " + name_text(cur) + b"\ntail 300 IN A 192.0.2.1\n" for b in bodies]
+            yield "respell-generic", [29, origin, rel, texts, [[b] for b in bodies], cur]
+        else:
+            pre = b"" if how == "zone" else b"$ORIGIN " + name_text(cur) + b"\n"
+            texts = [head + pre + b for b in bodies]
+            yield "respell-generic", [29, origin, rel, texts, [], cur]
     # $UNICODE (oracle only): UTF-8 TXT data and IDNA owner names survive write-then-read
     for i in range(ctx.n(30, 300)):
         origin = [b"example", b""]
@@ -1485,6 +1583,36 @@ def impl(case):
             ref = zs[2]
             nrec = sum(len(r) for node in ref.nodes.values() for r in node.rdatasets)
             return [codes, [[int(z == ref), int(zcanon(z) == zcanon(ref))] for z in (zs[0], zs[1], zs[3])], nrec]
+        if op == 29:
+            texts, files, cur = case[3], case[4], case[5]
+            o, rel = oname(case[1]), bool(case[2])
+            zs, codes = [], []
+            d = tempfile.mkdtemp(prefix="c09gen")
+            try:
+                for k, t in enumerate(texts):
+                    try:
+                        if files:
+                            pth = os.path.join(d, "inc%d.zone" % k)
+                            with open(pth, "wb") as f:
+                                f.write(files[k][0])
+                            t = t.replace(b"@@FILE1@@", pth.encode())
+                        zs.append(dns.zone.from_text(t.decode("latin-1"), origin=o, relativize=rel, allow_include=True))
+                        codes.append(0)
+                    except Exception as e:  # noqa
+                        zs.append(None)
+                        codes.append(exc_code(e).code)
+            finally:
+                for fn in os.listdir(d):
+                    os.unlink(os.path.join(d, fn))
+                os.rmdir(d)
+            if any(codes):
+                return [codes, [], []]
+            ref = zs[1]          # the spelling with absolute names
+            eqs = [[int(z == ref), int(zcanon(z) == zcanon(ref)), int(canon(dump(z)) == canon(dump(ref)))] for z in zs]
+            # the generic output of the loaded zone (absolute owners, `\#` rdata) read again below the $ORIGIN
+            t = ref.to_styled_text(dns.zone.ZoneStyle(want_generic=True, relativize=False, origin=ref.origin))
+            z2 = dns.zone.from_text("$ORIGIN " + dns.name.Name(cur).to_text() + "\n" + t, origin=o, relativize=rel)
+            return [codes, eqs, [int(z2 == ref), int(zcanon(z2) == zcanon(ref)), int(canon(dump(z2)) == canon(dump(ref)))]]
         if op == 26:
             text = bytes(case[3]).decode("utf-8")
             z = dns.zone.from_text(text, origin=oname(case[1]), relativize=bool(case[2]))
@@ -1612,6 +1740,19 @@ def oracle(ctx, kind, case, out):
                     fail("%s and the explicit spelling loaded to different zones" % nm, sig=kind)
                 elif not eqd:
                     fail("%s and the explicit spelling loaded to zones with different TTLs" % nm, sig=kind + "-ttl")
+    elif op == 29:
+        codes, eqs, back = out
+        spell = ["relative names", "absolute names", "\\# generic syntax", "CLASS1 TYPEn \\# generic syntax"]
+        if any(codes):
+            fail("a well-formed spelling of a known type was rejected (codes %r for relative/absolute/generic/CLASS-TYPE-generic)" % (codes,),
+                 sig=kind + "-rejected")
+        else:
+            for nm, e in zip(spell, eqs):
+                if not all(e):
+                    fail("the spelling with %s and the spelling with absolute names loaded to different zones / rdata names (%r)" % (nm, e),
+                         sig=kind)
+            if not all(back):
+                fail("want_generic output read again below $ORIGIN differs from the zone (%r)" % (back,), sig=kind + "-output")
     elif op == 26:
         if not all(out):
             fail("$UNICODE zone changed by write-then-read", sig=kind)
